@@ -303,9 +303,12 @@ class Discharger:
                     return r
             if sh == "task::spawn_blocking":
                 for g in gs:
-                    if g[0] == "bool" and g[2] is True and g[1][0] == "call" and g[1][1] == "Result::is_ok" and \
-                            g[1][2] and g[1][2][0][0] == "call" and g[1][2][0][1] == "Handle::try_current":
+                    if g[0] == "bool" and g[1][0] == "call" and g[1][2] and g[1][2][0][0] == "call" and \
+                            g[1][2][0][1] == "Handle::try_current" and \
+                            ((g[1][1] == "Result::is_ok" and g[2] is True) or (g[1][1] == "Result::is_err" and g[2] is False)):
                         return ("D11", "spawn_blocking under Handle::try_current().is_ok()")
+                    if g[0] == "variant" and g[2] == "ok" and g[1][0] == "call" and g[1][1] == "Handle::try_current":
+                        return ("D11", "spawn_blocking under Ok(_) = Handle::try_current()")
         else:
             cond = tr.operand(t.cond)
             r = self.d_assert(body, gs, site, cond)
